@@ -155,6 +155,7 @@ func (h *handler) OnClose(c gnet.Conn, err error) gnet.Action {
 	if h.rec.shutdown {
 		h.rec.add("op", tr.L("pick", tr.I(ci.cid)))
 	}
+	h.rec.closing[ci.cid] = true
 	h.rec.mu.Unlock()
 	if !ci.opened {
 		h.rec.Fail("lifecycle", "close-without-open", fmt.Sprintf("cid %d", ci.cid))
@@ -472,7 +473,7 @@ func (h *handler) doCall(ci *connInfo, call string, n int, data []byte, cb bool)
 		rec.mu.Lock()
 		handed := rec.handed[ci.cid]
 		rec.mu.Unlock()
-		if !ci.closed && !ci.untracked && ob != len(ci.accepted)-handed {
+		if !ci.closed && !ci.untracked && h.cfg.proto != "udp" && ob != len(ci.accepted)-handed {
 			rec.Fail("outbound-count", "OutboundBuffered", fmt.Sprintf("cid %d OutboundBuffered %d != accepted %d - handed %d", ci.cid, ob, len(ci.accepted), handed))
 		}
 	case "write":
@@ -481,6 +482,8 @@ func (h *handler) doCall(ci *connInfo, call string, n int, data []byte, cb bool)
 		rec.Obs(tr.L("hr", tr.I(ci.cid), "write", tr.I(m), errSym(err)))
 		if err == nil && !ci.udp {
 			ci.accepted = append(ci.accepted, data...)
+		} else if err != nil {
+			ci.untracked = true // a failed write may have handed part of its data to the kernel
 		}
 	case "writev":
 		segs := splitSegs(data, n)
@@ -491,6 +494,8 @@ func (h *handler) doCall(ci *connInfo, call string, n int, data []byte, cb bool)
 		rec.Obs(tr.L("hr", tr.I(ci.cid), "writev", tr.I(m), errSym(err)))
 		if err == nil {
 			ci.accepted = append(ci.accepted, bytes.Join(segs, nil)...)
+		} else {
+			ci.untracked = true
 		}
 	case "flush":
 		rec.Op(h.hl(ci, "flush"))
@@ -573,6 +578,8 @@ func (h *handler) acb(kind string, ci *connInfo, want bool, data []byte) gnet.As
 		}
 		if (kind == "write" || kind == "writev") && err == nil && c != nil {
 			ci.accepted = append(ci.accepted, data...) // the asynchronous write took effect now
+		} else if (kind == "write" || kind == "writev") && err != nil {
+			ci.untracked = true
 		}
 		h.rec.Obs(tr.L("acb", kind, tr.I(cid), es))
 		return nil
